@@ -361,14 +361,31 @@ def linearisation(ctx):
             defs = [n for n in ast.walk(f.node) if isinstance(n, ast.Assign) and len(n.targets) == 1 and
                     isinstance(a0, ast.Name) and U(n.targets[0]) == a0.id] if isinstance(a0, ast.Name) else []
             if defs:
-                sites.extend((n.value, n, c) for n in defs)
+                sites.extend((n.value, n, c, None) for n in defs)
             else:
-                sites.append((a0, c, c))
+                # the indices computed into a list first:  idx = [f(d) for d in range(..)]  (per half);  for i in idx: get_trace(i)
+                lists = []
+                if isinstance(a0, ast.Name):
+                    q = parent(c)
+                    while q is not None and q is not f.node:
+                        if isinstance(q, ast.For) and any(isinstance(x, ast.Name) and x.id == a0.id for x in ast.walk(q.target)):
+                            it = q.iter
+                            if isinstance(it, ast.Call) and U(it.func) == 'enumerate' and it.args:
+                                it = it.args[0]
+                            if isinstance(it, ast.Name):
+                                lists = [n for n in ast.walk(f.node) if isinstance(n, ast.Assign) and len(n.targets) == 1 and
+                                         U(n.targets[0]) == it.id and isinstance(n.value, ast.ListComp) and
+                                         len(n.value.generators) == 1 and isinstance(n.value.generators[0].target, ast.Name)]
+                        q = parent(q)
+                if lists:
+                    sites.extend((n.value.elt, n, c, n.value.generators[0].target.id) for n in lists)
+                else:
+                    sites.append((a0, c, c, None))
         if len(sites) < 2:
             raise AnalysisError('%s: expected two get_trace call sites (the two halves of the diagonal family)' % name)
-        for (iexpr, anchor, c) in sites:
+        for (iexpr, anchor, c, dname0) in sites:
             # the running variable of the diagonal: target of the innermost enclosing loop over a range
-            dname = None
+            dname = dname0
             q = parent(anchor)
             while q is not None and q is not f.node and dname is None:
                 if isinstance(q, ast.For):
@@ -377,6 +394,12 @@ def linearisation(ctx):
                         it, tg = it.args[0], tg.elts[1]
                     if isinstance(it, ast.Call) and U(it.func) == 'range' and isinstance(tg, ast.Name):
                         dname = tg.id
+                    elif dname is None:
+                        # several loop variables (zip of ranges ..): the one the trace index is computed from
+                        used = {x.id for x in ast.walk(iexpr) if isinstance(x, ast.Name)}
+                        cands = [x.id for x in ast.walk(q.target) if isinstance(x, ast.Name) and x.id in used]
+                        if len(cands) == 1:
+                            dname = cands[0]
                 q = parent(q)
             if dname is None:
                 raise AnalysisError('%s: the loop variable running along the diagonal was not found' % name)
